@@ -18,7 +18,7 @@ RULE = ('case = (a) one setting text (length 1..12 over digits ; space : < = > ?
 ASSUMPTIONS = ['"known" codes are those the library documents (AnsiParam): typed independently in vf/sgr_model.py',
                'tokens that only Python int() accepts (padding, sign, underscores, non-ASCII digits) are grey']
 MIN_EVAL = 1000
-CASES = {'quick': 80, 'thorough': 1800}
+CASES = {'quick': 800, 'thorough': 10800}
 WEIGHTS = {'apply': 14, 'remove': 3, 'simplify': 1}
 
 ALPHA = '0123456789;;;; :<=>?mHJ~@aZ[\\'
